@@ -49,14 +49,21 @@ def trace_run(ctx):
     n, mix = p["bars"], p["mix"]
     factor = p.get("resample_factor", 1)
     start = datetime(2023, 9, 22, 6, 58) if mix == "uni+deribit" else bars.START
-    uni, usdc, eth, pool = bars.make_uni(n * factor, "1min", start=start)
+    if p.get("gap"):
+        # the market history misses one minute while the (independent) price table has every minute: bars are the market's rows
+        full, usdc, eth, pool = bars.make_uni(n + 1, "1min", start=start)
+        price_src = full
+        uni, usdc, eth, pool = bars.make_uni(n, "1min", start=start, frame=full.data.drop(full.data.index[1]).copy())
+    else:
+        uni, usdc, eth, pool = bars.make_uni(n * factor, "1min", start=start)
+        price_src = uni
     markets = [uni]
     if mix == "uni+deribit":
         markets.append(_deribit_market(start, n * factor))
     elif mix == "uni+uni":
         uni2, _, _, _ = bars.make_uni(n * factor, "1min", start=start, name="uni2")
         markets.append(uni2)
-    prices, quote = get_price_from_data(uni.data, pool)
+    prices, quote = get_price_from_data(price_src.data, pool)
     a = bars.make_actuator(markets, prices, quote, {usdc: D(100000), eth: D(10)})
     if factor > 1:
         a.interval = f"{factor}min"
@@ -78,6 +85,8 @@ def trace_run(ctx):
 
         wrap()
     bar_ts = [pd.Timestamp(start) + pd.Timedelta(minutes=factor * i) for i in range(n)]
+    if p.get("gap"):
+        bar_ts = list(uni.data.index)
     do_op = {(i, ph): ctx.flag(f"op_{i}_{ph}") for i in range(n) for ph in PHASES if not (p.get("light") and ph in ("before", "trigger") and i > 0)}
     big_sell = bool(p.get("sell")) and n > 1
     in_notify = bool(p.get("notify_op"))
@@ -199,6 +208,7 @@ def scenarios(tier):
             if mix == "uni" or tier != "quick":
                 out.append(Scenario(f"trace/{mix}/n{n}/oversized_sell", trace_run, params=dict(bars=n, mix=mix, light=True, sell=True), entry=("Actuator.run", "UniLpMarket.sell"), **kw))
                 out.append(Scenario(f"trace/{mix}/n{n}/op_inside_notify", trace_run, params=dict(bars=n, mix=mix, light=True, notify_op=True), entry=("Actuator.run", "Actuator.notify"), **kw))
+    out.append(Scenario("trace/uni/price_table_denser_than_bars/n3", trace_run, params=dict(bars=3, mix="uni", light=True, gap=True), entry=("Actuator.run", "Actuator._generate_account_status_df"), **kw))
     out.append(Scenario("trace/uni/resampled_5min/n2", trace_run, params=dict(bars=2, mix="uni", resample_factor=5, light=True), entry=("Actuator.run", "Actuator.switch_interval"), canary="CANARY no action is ever recorded", **kw))
     if tier != "quick":
         out.append(Scenario("trace/uni/n5_light", trace_run, params=dict(bars=5, mix="uni", light=True), entry=("Actuator.run",), **kw))
